@@ -725,6 +725,16 @@ func (s *nScript) emitAs(cw *hx.CaseWriter, wrap, kind string, nontrivial bool, 
 	cw.Add(lit, kind, nontrivial, desc)
 }
 
+// caseLit is the bare (Noise_corr.mkCase ...) literal of the script so far (no honest pairs)
+func (s *nScript) caseLit() string {
+	var specs []string
+	for i, m := range s.ms {
+		specs = append(specs, m.specLit(i))
+	}
+	keys, _ := s.keysLit()
+	return fmt.Sprintf("(Noise_corr.mkCase [%s]\n  [%s]\n  %s [])", strings.Join(specs, ";\n   "), strings.Join(s.steps, ";\n   "), keys)
+}
+
 const nImports = "From NV Require Import lib.Sym model.Noise model.Machine corr.Noise_corr."
 
 func nNonZero(c *hx.Ctx) uint64 {
@@ -939,6 +949,9 @@ func noiseRandomBad(c *hx.Ctx, w *nWorld, targetInit bool) (nBadGen, string) {
 // returns its message of the same kind as src's (replay) or a splice of it with src's message
 func noiseOldSession(c *hx.Ctx, s *nScript, src int, splice bool) nWire {
 	w := s.w
+	if len(s.ms) < 2 {
+		return s.wJunk(c, src, 64)
+	}
 	i0 := len(s.ms)
 	a, b := s.ms[0], s.ms[1]
 	s.ms = append(s.ms, w.newMach(a.id, a.ver, true, a.cipher, nNonZero(c), false), w.newMach(b.id, b.ver, false, b.cipher, nNonZero(c), false))
